@@ -406,9 +406,61 @@ def r105(ctx, fx):
         ctx.fail_closed(rid, "fewer than 300 functions reachable from `mos build` (%d)" % n)
 
 
+def r106(ctx, fx):
+    rid = ctx.rule("R10.6", "an output file holds what this build produced and nothing of an earlier one: on the way from the sources to the outputs of `mos build` a file is "
+                   "created with `File::create` / `fs::write` (which truncate) or opened through OpenOptions with `truncate(true)` or `create_new(true)` — never with "
+                   "`append(true)`, and never with `write(true)` alone: what an earlier build left in the target directory would be part of the next result, and "
+                   "building twice would give another file than building once")
+    cg = lib.CallGraph(fx)
+    roots = [f_.id for f_ in (fx.fn(x) for x in ("mos::commands::build::build_command", "mos_core::io::binary_writer::BinaryWriter::write_banks",
+                                                 "mos_core::io::listing::to_listing", "mos_core::io::vice::to_vice_symbols")) if f_ is not None]
+    if len(roots) < 4:
+        ctx.fail_closed(rid, "entry points of the output writers not found")
+    scope = cg.reach(roots)
+    n_create = n_open = 0
+    for i in sorted(scope, key=lambda i: fx.fns[i].path):
+        f = fx.fns[i]
+        if not f.d.get("hir") or "::tests::" in f.path or f.kind == "closure" or f.path.lstrip("<").startswith(("mos::debugger", "mos::lsp", "mos::test_runner")):
+            continue
+        lets = {}
+        for y in lib.hwalk(f.hir["body"]):
+            if y.get("k") == "let" and "init" in y and y["pat"].get("k") == "bind":
+                lets.setdefault(y["pat"]["name"], []).append(y["init"])
+        for x in lib.hwalk(f.hir["body"]):
+            if x.get("k") == "call" and str(lib.hcallee(x) or "").endswith(("File::create", "fs::write")):
+                n_create += 1
+            if not (x.get("k") == "mcall" and x.get("name") == "open" and "OpenOptions" in str(x.get("path", ""))):
+                continue
+            n_open += 1
+            chain, todo, seen = [], [x["recv"]], set()
+            while todo and len(chain) < 10:
+                e = todo.pop()
+                chain.append(e)
+                for y in lib.hwalk(e):
+                    nm = lib.hpath(y) if y.get("k") == "path" else None
+                    if nm in lets and nm not in seen:
+                        seen.add(nm)
+                        todo.extend(lets[nm])
+            flags = {}
+            for c in chain:
+                for y in lib.hwalk(c):
+                    if y.get("k") == "mcall" and y.get("name") in ("write", "truncate", "append", "create_new", "create", "read") and y.get("args"):
+                        flags[y["name"]] = lib.hlit(lib.strip(y["args"][0]))
+            key = "%s|open#%d" % (f.path, n_open)
+            ctx.inst(rid, key, sample={"fn": f.path, "line": x.get("ln"), "flags": flags})
+            if flags.get("append") is True or ((flags.get("write") is True or flags.get("create") is True) and not (flags.get("truncate") is True or flags.get("create_new") is True)):
+                ctx.finding(rid, key, "%s opens an output file of the build so that what is already in it stays (%s): the file a second build leaves is not the file the "
+                            "first one left — a bank written to its own `filename` is there twice" % (
+                                f.path.rsplit("::", 1)[-1], "append" if flags.get("append") else "no truncation"), "%s:%s" % (f.file, x.get("ln")))
+    ctx.inst(rid, "writers", sample={"File::create / fs::write": n_create, "OpenOptions": n_open})
+    if n_create + n_open < 3:
+        ctx.fail_closed(rid, "fewer than 3 places where the build creates a file found (%d)" % (n_create + n_open))
+
+
 def run(ctx):
     fx = ctx.facts
     r105(ctx, fx)
+    r106(ctx, fx)
     r101(ctx, fx)
     r104(ctx, fx)
     r102(ctx, fx)
